@@ -40,6 +40,14 @@ var tmplAtoms = []string{
 	"${", "%{", "}", "~", "\"", "$", "%", "\\", "if", "for", "in", "endif", "else", "endfor", ",", "{",
 }
 
+// directive alphabet: the pieces of %{ } directive headers, so that short strings reach
+// every prefix of a control directive (each recovery branch of the template parser:
+// missing variable, missing second variable after the comma, missing "in", unknown
+// keyword) in bare, quoted and heredoc templates.
+var directiveAtoms = []string{
+	"%{", "for ", "if ", "a", "a,", ", ", " in ", "}", "%{~", "~}", "else", "endif", "endfor", " ", "\n", "${", "b", "x",
+}
+
 // JSON alphabet: whole tokens of the JSON profile plus the pieces that break them.
 var jsonAtoms = []string{
 	"{", "}", "[", "]", ",", ":", "\"a\"", "1", "true", "null", " ", "\n",
